@@ -715,7 +715,7 @@ pub fn t_compute_shape(dims: &[D], two_inputs: bool) -> Tm {
 
 pub fn t_cast(from: i32, to: i32, declare_dtype_only: bool) -> Tm {
     let mut b = B::new();
-    let x = b.inp("x", from, &fx(&[2, 2]), !declare_dtype_only, VC::Normal);
+    let x = b.inp("x", from, &fx(&[2, 4]), !declare_dtype_only, VC::Normal);
     let c = b.opa("Cast", &[&x], vec![("to", Attr::Int(to as i64))]);
     let y = b.op("Neg", &[&c]);
     b.out(&y, to);
@@ -834,6 +834,189 @@ pub fn t_div_rank() -> Tm {
     let y = b.op("Add", &[&v, &cf]);
     b.out(&y, dt::FLOAT);
     b.fin("divrank/x[2,3]/c[1,1,1]".into(), "ShapeArith")
+}
+
+/// Both softmax fusions at once: `Where(IsNaN(P), 0, P)` with `P = Softmax(Add(qk, mask))`.
+/// Pass 1: SafeSoftmax -> Softmax{flush}; pass 2: AddSoftmax must inherit the flag.
+pub fn t_safe_add_softmax(qs: &[usize], ms: &[usize], axis: i64, swap: bool, declare: bool) -> Tm {
+    let mut b = B::new();
+    let q = b.inp("qk", dt::FLOAT, &fx(qs), declare, VC::Normal);
+    let m = b.inp("mask", dt::FLOAT, &fx(ms), declare, VC::Mask);
+    let a = b.bin("Add", &q, &m, swap);
+    let p = b.opa("Softmax", &[&a], vec![("axis", Attr::Int(axis))]);
+    let nan = b.op("IsNaN", &[&p]);
+    let z = b.sc(0, 0.0);
+    let y = b.op("Where", &[&nan, &z, &p]);
+    b.out(&y, dt::FLOAT);
+    b.fin(format!("chain/safe+addsoftmax/q{qs:?}/m{ms:?}/ax{axis}/{}{}", swap as u8, if declare { "" } else { "/noshape" }), "Chain")
+}
+
+/// Transpose -> MatMul -> scale (-> + bias): TransposeFusion / MatMulScale / MatMulAdd across passes.
+pub fn t_transpose_matmul_scale(scale_in: bool, bias: bool) -> Tm {
+    let mut b = B::new();
+    let a = b.x("a", &[4, 2]);
+    let w = b.x("b", &[4, 3]);
+    let at = b.opa("Transpose", &[&a], vec![("perm", Attr::Ints(vec![1, 0]))]);
+    let lhs = if scale_in {
+        let c = b.sc(0, 0.5);
+        b.op("Mul", &[&at, &c])
+    } else {
+        at
+    };
+    let mm = b.op("MatMul", &[&lhs, &w]);
+    let c2 = b.sc(0, 0.25);
+    let mut y = b.op("Mul", &[&mm, &c2]);
+    if bias {
+        let bi = b.cf(&[3], &[1.0, 2.0, 3.0]);
+        y = b.op("Add", &[&y, &bi]);
+    }
+    b.out(&y, dt::FLOAT);
+    b.fin(format!("chain/transpose+matmul+scale/{}{}", scale_in as u8, bias as u8), "Chain")
+}
+
+/// RMSNorm written with `1 / sqrt(..)` (Reciprocal fusion first, RMSNorm in the next pass) and Swish
+/// with alpha = 1 written as `x * Sigmoid(1 * x)` (Identity elimination first, then Silu).
+pub fn t_chain_misc(variant: usize) -> Tm {
+    let mut b = B::new();
+    let x = b.x("x", &[2, 4]);
+    let y = match variant {
+        0 => {
+            let two = b.sc(0, 2.0);
+            let p = b.op("Pow", &[&x, &two]);
+            let v = reduce_mean(&mut b, &p, -1, 1, false);
+            let eps = b.sc(0, 1e-5);
+            let ve = b.op("Add", &[&v, &eps]);
+            let sd = b.op("Sqrt", &[&ve]);
+            let one = b.sc(0, 1.0);
+            let r = b.op("Div", &[&one, &sd]);
+            let xn = b.op("Mul", &[&x, &r]);
+            let s = b.cf(&[4], &[0.5, 0.75, 1.0, 1.25]);
+            b.op("Mul", &[&xn, &s])
+        }
+        1 => {
+            let one = b.sc(0, 1.0);
+            let ax = b.op("Mul", &[&one, &x]);
+            let s = b.op("Sigmoid", &[&ax]);
+            b.op("Mul", &[&x, &s])
+        }
+        _ => {
+            // Gelu whose input goes through a no-op Cast and whose output is scaled by 1
+            let c = b.opa("Cast", &[&x], vec![("to", Attr::Int(dt::FLOAT as i64))]);
+            let g = {
+                let s2 = b.sc(0, SQRT2);
+                let d = b.op("Div", &[&c, &s2]);
+                let e = b.op("Erf", &[&d]);
+                let one = b.sc(0, 1.0);
+                let e1 = b.op("Add", &[&e, &one]);
+                let m = b.op("Mul", &[&c, &e1]);
+                let half = b.sc(0, 0.5);
+                b.op("Mul", &[&m, &half])
+            };
+            let one = b.sc(0, 1.0);
+            b.op("Mul", &[&g, &one])
+        }
+    };
+    b.out(&y, dt::FLOAT);
+    b.fin(format!("chain/misc/{variant}"), "Chain")
+}
+
+/// Insert a no-op (`kind` 0: `* 1`, 1: `Cast(to=FLOAT)`, 2: `Identity`) on value `v`: all consumers of
+/// `v` read the no-op's output. IdentityFusion / CastElimination then feed every pattern.
+pub fn insert_noop(t: &Tm, v: &str, kind: usize) -> Tm {
+    let mut t2 = t.clone();
+    let nv = format!("{v}_noop");
+    for n in t2.g.nodes.iter_mut() {
+        for i in n.inputs.iter_mut() {
+            if i == v {
+                *i = nv.clone();
+            }
+        }
+    }
+    let node = match kind {
+        0 => {
+            t2.g.initializers.push(Tensor::f32s(&format!("{v}_one"), &[], &[1.0]));
+            Node::new("Mul", &format!("{v}_noop_n"), &[v, &format!("{v}_one")], &[&nv])
+        }
+        1 => Node::new("Cast", &format!("{v}_noop_n"), &[v], &[&nv]).attr("to", Attr::Int(dt::FLOAT as i64)),
+        _ => Node::new("Identity", &format!("{v}_noop_n"), &[v], &[&nv]),
+    };
+    // keep ONNX node order topological: put the no-op right after the producer of `v` (or first)
+    let pos = t2.g.nodes.iter().position(|n| n.outputs.iter().any(|o| o == v)).map(|p| p + 1).unwrap_or(0);
+    t2.g.nodes.insert(pos, node);
+    t2.name = format!("{}+noop{kind}:{v}", t.name);
+    t2.family = "Chain";
+    t2
+}
+
+/// Sequential composition: the (single, f32) output of `a` becomes the input `x` of `b`.
+pub fn compose(a: &Tm, b: &Tm) -> Tm {
+    let ren = |s: &str| if s.is_empty() { String::new() } else { format!("A_{s}") };
+    let mut g = Graph::default();
+    for i in &a.g.inputs {
+        let mut i2 = i.clone();
+        i2.name = ren(&i.name);
+        g.inputs.push(i2);
+    }
+    for t in &a.g.initializers {
+        let mut t2 = t.clone();
+        t2.name = ren(&t.name);
+        g.initializers.push(t2);
+    }
+    for n in &a.g.nodes {
+        let mut n2 = n.clone();
+        n2.name = ren(&n.name);
+        n2.inputs = n.inputs.iter().map(|s| ren(s)).collect();
+        n2.outputs = n.outputs.iter().map(|s| ren(s)).collect();
+        g.nodes.push(n2);
+    }
+    let mid = ren(&a.g.outputs[0].name);
+    for i in &b.g.inputs {
+        if i.name != "x" {
+            g.inputs.push(i.clone());
+        }
+    }
+    g.initializers.extend(b.g.initializers.iter().cloned());
+    for n in &b.g.nodes {
+        let mut n2 = n.clone();
+        n2.inputs = n.inputs.iter().map(|s| if s == "x" { mid.clone() } else { s.clone() }).collect();
+        g.nodes.push(n2);
+    }
+    g.outputs = b.g.outputs.clone();
+    let mut ins: Vec<InSpec> = a.ins.iter().map(|s| InSpec { name: ren(&s.name), ..s.clone() }).collect();
+    ins.extend(b.ins.iter().filter(|s| s.name != "x").cloned());
+    Tm { name: format!("chain/compose/[{}]>[{}]", a.name, b.name), family: "Chain", g, ins, opset: 21, vals: vec![] }
+}
+
+/// Unary f32 `[2,4] -> [2,4]` templates with input `x`, one per fusion whose product is a tensor of
+/// its input's shape (add a line here when a fusion is added to `fusions.rs`).
+pub fn unary_reps() -> Vec<Tm> {
+    let f = dt::FLOAT;
+    let xs = &[2usize, 4][..];
+    let mut addsm = {
+        let mut b = B::new();
+        let q = b.x("x", xs);
+        let m = b.inp("mask", f, &fx(xs), true, VC::Mask);
+        let a = b.op("Add", &[&q, &m]);
+        let y = b.opa("Softmax", &[&a], vec![("axis", Attr::Int(-1))]);
+        b.out(&y, f);
+        b.fin("addsoftmax".into(), "Chain")
+    };
+    addsm.family = "Chain";
+    vec![
+        t_identity(0, xs, 0, false, true, f, None, false),
+        t_identity(2, xs, 0, true, true, f, None, false),
+        t_reciprocal(xs, 0, 1.0, f),
+        t_silu(xs, false, false),
+        t_swish(xs, 0, 1.702, false, false),
+        t_gelu(xs, 0, false, 0, false),
+        t_approx_gelu(xs, 0, false),
+        t_layernorm(xs, -1, -1, 1, true, &[4], true, 0, true),
+        t_layernorm(xs, -1, -1, 1, false, &[4], false, 0, true),
+        t_rmsnorm(xs, -1, 1, true, &[4], 0),
+        t_safe_softmax(xs, 0, -1, None, 0.0),
+        addsm,
+        t_cast(f, f, false),
+    ]
 }
 
 /// Two graph outputs with the same (shape-inference) constant value.
@@ -1180,6 +1363,56 @@ pub fn all_templates(rng: &mut Rng, thorough: bool) -> Vec<Tm> {
     // epsilon of rank 3 with a valid scale
     v.push(t_layernorm(&[2, 4], -1, -1, 1, true, &[4], true, 3, true));
     v.push(t_rmsnorm(&[2, 4], -1, 1, true, &[4], 3));
+    // ---- chains of fusions across passes
+    for swap in [false, true] {
+        for declare in [true, false] {
+            v.push(t_safe_add_softmax(&[3, 4], &[3, 4], -1, swap, declare));
+            v.push(t_safe_add_softmax(&[3, 4], &[3, 4], 1, swap, declare));
+            v.push(t_safe_add_softmax(&[3, 4], &[3, 4], 0, swap, declare));
+            v.push(t_safe_add_softmax(&[2, 3, 4], &[3, 4], -1, swap, declare));
+            v.push(t_safe_add_softmax(&[3, 4], &[4], -1, swap, declare));
+        }
+    }
+    for scale_in in [false, true] {
+        for bias in [false, true] {
+            v.push(t_transpose_matmul_scale(scale_in, bias));
+        }
+    }
+    for variant in 0..3 {
+        v.push(t_chain_misc(variant));
+    }
+    let un = unary_reps();
+    for a in &un {
+        for bb in &un {
+            v.push(compose(a, bb));
+        }
+    }
+    // no-op (x*1 / Cast to f32 / Identity) on every f32 value of the representatives
+    {
+        let noop_reps: Vec<Tm> = {
+            let mut r = unary_reps();
+            r.push(t_safe_add_softmax(&[3, 4], &[3, 4], -1, false, true));
+            r.push(t_matmul_add(&[2, 4], &[4, 3], &[3], false, true, f));
+            r.push(t_matmul_scale(&[2, 4], &[4, 3], sc(false, 0.5, 0, true), None, sc(true, 2.0, 0, false)));
+            r.push(t_transpose("MatMul", 0, None, false));
+            r
+        };
+        for r in &noop_reps {
+            let outs: Vec<String> = r.g.outputs.iter().map(|o| o.name.clone()).collect();
+            let mut values: Vec<String> = r.ins.iter().filter(|i| i.dtype == f).map(|i| i.name.clone()).collect();
+            for val in &r.vals {
+                let prod = r.g.nodes.iter().find(|n| n.outputs.contains(val)).map(|n| n.op_type.clone()).unwrap_or_default();
+                if !outs.contains(val) && prod != "IsNaN" {
+                    values.push(val.clone());
+                }
+            }
+            for val in &values {
+                for kind in 0..3 {
+                    v.push(insert_noop(r, val, kind));
+                }
+            }
+        }
+    }
     // guard wrappers: every f32 intermediate of a representative of each family
     let reps: Vec<Tm> = vec![
         t_identity(0, &[3], 0, false, true, f, None, true),
